@@ -152,6 +152,8 @@ pub struct Stats {
     pub simulated_seconds: u64,
     pub abstract_states: BTreeSet<u64>,
     pub abstract_transitions: BTreeSet<u64>,
+    /// wall-clock profile (never part of any digest or decision)
+    pub wall_us: BTreeMap<String, u64>,
 }
 
 impl Stats {
@@ -585,6 +587,32 @@ impl World {
                     blocks: blocks.iter().map(|id| self.net.blocks[id].bytes.clone()).collect(),
                     next: next_blobs,
                 }))
+            }
+            (GetSuccessorsRequest::Initial(init), ReplySpec::HonestPoisoned { max_blocks, max_next, poison, at }) => {
+                self.paging = None;
+                self.stats.fault("F-poisoned");
+                let mut anchor = [0u8; 32];
+                anchor.copy_from_slice(init.anchor.as_bytes());
+                let processed: BTreeSet<Hash32> = init
+                    .processed_block_hashes
+                    .iter()
+                    .map(|h| {
+                        let mut a = [0u8; 32];
+                        a.copy_from_slice(h.as_bytes());
+                        a
+                    })
+                    .collect();
+                let (blocks, next) = self.honest_initial(&anchor, &processed, (*max_blocks).max(1) as usize, *max_next as usize, 2_000_000, 0, false);
+                let mut b: Vec<Vec<u8>> = blocks.iter().map(|id| self.net.blocks[id].bytes.clone()).collect();
+                if let Some(p) = self.offer_block_bytes(poison) {
+                    let pos = (*at as usize).min(b.len());
+                    b.insert(pos, p);
+                }
+                let n: Vec<BlockHeaderBlob> = next
+                    .iter()
+                    .map(|id| Self::header_blob(self.net.blocks[id].header_bytes()))
+                    .collect();
+                Ok(GetSuccessorsResponse::Complete(GetSuccessorsCompleteResponse { blocks: b, next: n }))
             }
             (GetSuccessorsRequest::Initial(_), ReplySpec::Explicit { blocks, next }) => {
                 self.paging = None;
